@@ -186,6 +186,8 @@ type Layout struct {
 	// StrangerDB: one more leaf node which answers from this (never written) database whatever database the
 	// request names: a node that has never seen the metric
 	StrangerDB string
+	// FailLeaf: one more leaf node whose task fails with a real error (not a "not found")
+	FailLeaf bool
 }
 
 // aliasEngine answers every database lookup with one fixed database.
@@ -299,6 +301,11 @@ func (n *Node) Query(db, sqlText string, lay Layout) (*commonmodels.ResultSet, e
 		}
 		leafTargets = append(leafTargets, t)
 	}
+	failing := ""
+	if lay.FailLeaf {
+		failing = fmt.Sprintf("2.2.3.%d:9100", 1)
+		leafTargets = append(leafTargets, &models.Target{Indicator: failing, ShardIDs: []models.ShardID{0}})
+	}
 	leafPlan := func(database string) []*models.PhysicalPlan {
 		return []*models.PhysicalPlan{{Database: database, Targets: leafTargets}}
 	}
@@ -323,13 +330,21 @@ func (n *Node) Query(db, sqlText string, lay Layout) (*commonmodels.ResultSet, e
 			})
 			return nil
 		}
-		p := processors[target]
-		if p == nil {
-			return fmt.Errorf("unknown target %s", target)
-		}
 		to := rootMgr
 		if lay.Intermediate {
 			to = brokerMgr
+		}
+		if target == failing && failing != "" {
+			sim.Spawn("leaf", func() {
+				sim.YieldNow()
+				deliver(&pendingResp{resp: &protoCommonV1.TaskResponse{RequestID: req.RequestID, RequestType: req.RequestType, Completed: true,
+					ErrMsg: "injected: storage of this leaf failed"}, from: target, to: to})
+			})
+			return nil
+		}
+		p := processors[target]
+		if p == nil {
+			return fmt.Errorf("unknown target %s", target)
 		}
 		sim.Spawn("leaf", func() {
 			// as TaskHandler.process: an error of Process is answered on the request stream
